@@ -1437,6 +1437,17 @@ theorem lossOfE_spec (rho : ℝ → ℝ) (outs : List (Output ℝ)) :
     lossOfE KSpec.none outs = .ok (lossOf KSpec.none outs) ∧
     lossOfE (KSpec.single rho) outs = .ok (lossOf (KSpec.single rho) outs) := ⟨rfl, rfl, rfl⟩
 
+/-! ## pass 5: the documented defaults -/
+
+/-- **An optimizer built with `strategy` omitted** starts from `TrustRegion()`: radius 10⁶, damping 10⁻⁶, down-factor ½,
+bounds 10⁻⁶ … 10¹⁶ — this param group is within the strategy's bounds, so by `lmRun_inBounds` every history of every
+default-built optimizer stays there; and by `interleave_independent` several default-built optimizers used interleaved
+each follow their own history (nothing is shared through the defaults in the model: the harness checks that of the code). -/
+theorem default_trust_inBounds :
+    InBounds Kind.trust (⟨1/2, 1/1000, 2, 1/2, 1/2, 1/1000000, 10^16⟩ : Hyper ℝ) (initTrust (10^6) (1/2)) := by
+  rw [initTrust_inBounds _ _ _ (by norm_num)]
+  norm_num
+
 /-! ## non-vacuity: concrete runs of the model (`P = D = ℚ`-like reals, loss `x²`) -/
 
 section examples
